@@ -102,7 +102,8 @@ class View(object):
     def __init__(self, s):
         arb = s.arb
         self.names = [w.name for w in arb.watchers]
-        self.pids = {w.name: list(w.processes.keys()) for w in arb.watchers}
+        inn = getattr(s.k, "inn", lambda x: x)
+        self.pids = {w.name: [inn(p) for p in w.processes.keys()] for w in arb.watchers}
         self.all_pids = [p for l in self.pids.values() for p in l]
         self.kernel_live = [p.pid for p in s.k.procs.values() if p.state == "r"]
         self.kids = [p.pid for p in s.k.procs.values() if p.state == "r" and p.ppid not in (0, None)]
@@ -754,6 +755,8 @@ def gen_scenario(rng, nops=None, profile=None):
         sc = gen_config(rng, profile)
     # which of the two call sites of start_watchers in Arbiter.start() the scenario goes through (circusd: own loop)
     sc["own_loop"] = rng.random() < 0.5
+    # the pid numbers the daemon is shown: in spawn order (as the model numbers them), or decreasing in spawn order
+    sc["pid_desc"] = rng.random() < profile.get("pid_desc", 0.3)
     # endpoint-owner mode (an ipc:// control endpoint with endpoint_owner set): `add` must carry the owner's uid
     if rng.random() < profile.get("owner", 0.1):
         sc.setdefault("arb", {})["owner"] = "root"
